@@ -23,9 +23,12 @@ def pairing_fn(ctx):
     for b in ctx.facts.bodies.values():
         if b.promoted is not None or b.kind != "Fn" or b.id not in ctx.reach:
             continue
-        if b.local_ty(0).startswith("std::result::Result<std::vec::Vec<blockwatch::blocks::Block>") and \
-                any(callee_matches(t, r"Vec::<T, A>::pop$") for bi, t in b.calls()):
-            c.append(b)
+        if b.local_ty(0).startswith("std::result::Result<std::vec::Vec<blockwatch::blocks::Block>"):
+            # read in the normalised view: the stack may live in a small struct with `open` / `close`
+            # methods, the tag loop may be a `try_for_each`
+            v = ctx.inl(b, skip=ctx.domain_api, tag="domain", sugar=True)
+            if any(callee_matches(t, r"Vec::<T, A>::pop$") for bi, t in v.calls()):
+                c.append(v)
     return c[0] if len(c) == 1 else None
 
 
@@ -61,7 +64,7 @@ def run(ctx, out, tier):
     else:
         cfg = cfg_of(pf)
         pops = [(bi, t) for bi, t in pf.calls() if callee_matches(t, r"Vec::<T, A>::pop$")]
-        stack_locals = {util.base_local(pf, t["args"][0]) for bi, t in pops}
+        stack_locals = {util.base_path(pf, t["args"][0]) for bi, t in pops}
         if len(stack_locals) != 1:
             out.viol("C12.stack", "C12.stack|stack", ctx.where(pf), "expected one open-tag stack, found %d popped containers" % len(stack_locals))
         else:
@@ -86,7 +89,7 @@ def run(ctx, out, tier):
                 out.viol("C12.stack", "C12.stack|no-pop-in-loop", ctx.where(pf), "no stack pop inside the tag loop")
             # (b) leftover start tags after the scan
             checked = False
-            tests = [(bi, t) for bi, t in pf.calls() if not cfg.loops_containing(bi) and t["args"] and util.base_local(pf, t["args"][0]) == stack
+            tests = [(bi, t) for bi, t in pf.calls() if not cfg.loops_containing(bi) and t["args"] and util.base_path(pf, t["args"][0]) == stack
                      and callee_matches(t, r"Vec::<T, A>::(pop|is_empty|len|last|first)$|<impl \[T\]>::(is_empty|len|last|first)$")]
             oks = [bi for bi, j, s in pf.assigns() if s["lhs"]["l"] == 0 and s["rv"]["k"] == "agg" and s["rv"].get("variant") == "Ok"]
             for bi, t in tests:
@@ -125,7 +128,7 @@ def run(ctx, out, tier):
             # (c) stack discipline
             bad = []
             for bi, t in pf.calls():
-                if t["args"] and util.base_local(pf, t["args"][0]) == stack:
+                if t["args"] and util.base_path(pf, t["args"][0]) == stack:
                     nm = callee_name(t).split("::")[-1]
                     if nm not in ("push", "pop", "is_empty", "len", "last", "first", "deref", "new"):
                         bad.append(nm)
@@ -134,7 +137,7 @@ def run(ctx, out, tier):
             else:
                 n += 1
             # start tags are pushed on every Start
-            pushes = [(bi, t) for bi, t in pf.calls() if callee_matches(t, r"Vec::<T, A>::push$") and util.base_local(pf, t["args"][0]) == stack]
+            pushes = [(bi, t) for bi, t in pf.calls() if callee_matches(t, r"Vec::<T, A>::push$") and util.base_path(pf, t["args"][0]) == stack]
             if len(pushes) >= 1 and all(cfg.loops_containing(bi) for bi, t in pushes):
                 n += 1
             else:
